@@ -27,11 +27,42 @@ let run_ts (toks : string list) : string =
     show_option h (Model.of_le8 (List.map n [ b0; b1; b2; b3; b4; b5; b6; b7 ]))
   | _ -> "?bad-case"
 
+(* ---- component: hlc (C09) ----------------------------------------------- *)
+let show_hres = function
+  | Model.HOk t -> "ok:" ^ h t
+  | Model.HErr Model.ClockDrift -> "err:drift"
+  | Model.HErr Model.Overflow -> "err:overflow"
+  | Model.HErr Model.DuplicatedNode -> "err:dup"
+  | Model.HPanic -> "panic"
+
+let run_hlc (toks : string list) : string =
+  match toks with
+  | "run" :: c0 :: evs ->
+    (* stop at the first panic, as the executor does *)
+    let rec go c evs acc =
+      match evs with
+      | [] -> (List.rev acc, c)
+      | e :: rest ->
+        let r, c' =
+          match String.split_on_char ':' e with
+          | [ "s"; w ] -> Model.send (n w) c
+          | [ "r"; w; m ] -> Model.recv (n w) c (n m)
+          | _ -> failwith "bad event"
+        in
+        (match r with
+         | Model.HPanic -> (List.rev (show_hres r :: acc), c')
+         | _ -> go c' rest (show_hres r :: acc))
+    in
+    let outs, c = go (n c0) evs [] in
+    String.concat " " outs ^ " | " ^ h c
+  | _ -> "?bad-case"
+
 let () =
   let comp = if Array.length Sys.argv > 1 then Sys.argv.(1) else "" in
   let f =
     match comp with
     | "ts" -> run_ts
+    | "hlc" -> run_hlc
     | _ -> prerr_endline ("unknown component " ^ comp); exit 2
   in
   let out = Buffer.create 65536 in
